@@ -97,6 +97,23 @@ def write_cfg(path, *, init="Init", next="Next", spec=None, constants=None, inva
     return path
 
 
+try:
+    import ctypes
+
+    _LIBC = ctypes.CDLL("libc.so.6", use_errno=True)
+except Exception:  # pragma: no cover
+    _LIBC = None
+
+
+def _die_with_parent():
+    """child side of fork: have the kernel kill TLC when the check that started it dies (no orphan model checkers)"""
+    if _LIBC is not None:
+        try:
+            _LIBC.prctl(1, 9)  # PR_SET_PDEATHSIG, SIGKILL
+        except Exception:
+            pass
+
+
 def run(module, cfg, *, workers=16, timeout=900, coverage=True, simulate=None, depth=None,
         seed=None, env=None, extra=(), heap="8g", keep_stdout=True, on_record=None,
         dfs=False, lib=None):
@@ -139,7 +156,7 @@ def run(module, cfg, *, workers=16, timeout=900, coverage=True, simulate=None, d
     err_lines = []
     try:
         proc = subprocess.Popen(cmd, cwd=moddir, env=e, stdout=subprocess.PIPE,
-                                stderr=subprocess.STDOUT, text=True, bufsize=1 << 20)
+                                stderr=subprocess.STDOUT, text=True, bufsize=1 << 20, preexec_fn=_die_with_parent)
         import threading
 
         def killer():
